@@ -19,7 +19,7 @@ use std::time::Duration;
 #[derive(Clone, Debug)]
 pub struct Cfg { pub w: u16, pub h: u16, pub lay: u32, pub name: String, pub dom: String, pub user: String, pub pw: String, pub hash: bool, pub ra: bool, pub blank: bool, pub auto: bool, pub nla: bool, pub check: bool }
 #[derive(Clone, Debug)]
-pub struct SrvCfg { pub sel: u32, pub id: usize, pub uid: u16, pub version: u32, pub license_new: bool, pub share: u32, pub caps: Vec<Vec<u8>>, pub source: Vec<u8>, pub chal_flags: u32, pub inputs: Vec<String>, pub script: Vec<Act>, pub reactivate: Option<u32> }
+pub struct SrvCfg { pub sel: u32, pub id: usize, pub uid: u16, pub version: u32, pub license_new: bool, pub share: u32, pub caps: Vec<Vec<u8>>, pub source: Vec<u8>, pub chal_flags: u32, pub inputs: Vec<String>, pub script: Vec<Act>, pub reactivate: Option<u32>, pub reuse: u8, pub jrefuse: u8 }
 #[derive(Clone, Debug)]
 pub enum Act { Send(Vec<u8>), Pause(u64), CloseNotify, Close }
 
@@ -83,6 +83,7 @@ pub fn serve(raw: UnixStream, s: SrvCfg, acc_key: Vec<u8>, rawlog: Arc<Mutex<Vec
     }
     let p = SrvParams { uid: s.uid, version: s.version, selected: sel, license_new: s.license_new };
     let mut sdrq = 0usize;
+    let mut njoin = 0usize;
     let mut since_da: Option<usize> = None;
     let mut cur_share = s.share;
     let mut reactivated = false;
@@ -96,7 +97,7 @@ pub fn serve(raw: UnixStream, s: SrvCfg, acc_key: Vec<u8>, rawlog: Arc<Mutex<Vec
         else {
             match m[0] >> 2 {
                 10 => { let pl = refsrv::cat(&[&[0x2e, 0x00], &refsrv::be16(p.uid - 1001)]); log.au = pl.clone(); ans.extend(refsrv::x224_data(&pl)); }
-                14 => { if m.len() >= 5 { let pl = refsrv::cat(&[&[0x3e, 0x00], &m[1..5], &m[3..5]]); log.cjc.push(pl.clone()); ans.extend(refsrv::x224_data(&pl)); } }
+                14 => { if m.len() >= 5 { njoin += 1; let refuse = s.jrefuse == 3 || s.jrefuse as usize == njoin; let pl = refsrv::cat(&[&[0x3e, if refuse { 0x0c } else { 0x00 }], &m[1..5], &m[3..5]]); log.cjc.push(pl.clone()); ans.extend(refsrv::x224_data(&pl)); } }
                 25 => {
                     sdrq += 1;
                     if sdrq == 1 {
@@ -115,7 +116,7 @@ pub fn serve(raw: UnixStream, s: SrvCfg, acc_key: Vec<u8>, rawlog: Arc<Mutex<Vec
                                 ans.extend(fr);
                             }
                             // a second activation with a new share id (deactivate-all, demand-active)
-                            if let (Some(ns), false) = (s.reactivate, reactivated) {
+                            if let (Some(ns), false) = (s.reactivate.map(|x| if x == 0 { s.share } else { x }), reactivated) {
                                 reactivated = true;
                                 for b in &[refsrv::deactivate_all(cur_share, &s.source), refsrv::demand_active(ns, &s.source, &s.caps)] {
                                     let fr = refsrv::mcs_sdin(1003, b);
@@ -178,12 +179,29 @@ pub fn run_conn(c: &Cfg, s: &SrvCfg) -> Run {
     let rawlog = Arc::new(Mutex::new(vec![]));
     let (s2, key2, rl2) = (s.clone(), key.clone(), rawlog.clone());
     let th = std::thread::spawn(move || serve(b, s2, key2, rl2));
+    let reuse = s.reuse;
+    // the earlier use of the Connector talks to its own throwaway server
+    let warm: Option<(UnixStream, std::thread::JoinHandle<ConnLog>)> = if reuse == 0 { None } else {
+        let (a0, b0) = UnixStream::pair().expect("socketpair");
+        a0.set_read_timeout(Some(Duration::from_secs(3))).ok();
+        let (s0, k0) = (SrvCfg { script: vec![], reactivate: None, reuse: 0, ..s.clone() }, key.clone());
+        let th0 = if reuse == 1 { std::thread::spawn(move || serve(b0, s0, k0, Arc::new(Mutex::new(vec![])))) }
+                  else { std::thread::spawn(move || { let mut b0 = b0; let _ = read_tpkt(&mut b0); let _ = write_all(&mut b0, &refsrv::tpkt_frame(&crate::props::c05::confirm(3, 0, 2))); ConnLog::default() }) };
+        Some((a0, th0))
+    };
     let (c2, inputs) = (c.clone(), s.inputs.clone());
     let nreads = if s.reactivate.is_some() { 11 } else { 5 };
     let res = catch_unwind(AssertUnwindSafe(move || -> Result<(), String> {
         let mut con = Connector::new().screen(c2.w, c2.h).credentials(c2.dom.clone(), c2.user.clone(), c2.pw.clone())
             .set_restricted_admin_mode(c2.ra).auto_logon(c2.auto).blank_creds(c2.blank).use_nla(c2.nla).layout(layout_of(c2.lay)).name(c2.name.clone()).check_certificate(c2.check);
         if c2.hash { con = con.set_password_hash(nt_hash.clone()); }
+        // the SAME Connector used before: for a complete earlier connection (1), or for an attempt the
+        // server answered with a negotiation failure (2)
+        if reuse == 1 {
+            if let Some((a0, th0)) = warm { if let Ok(mut c0) = con.connect(a0) { let _ = c0.shutdown(); } let _ = th0.join(); }
+        } else if reuse == 2 {
+            if let Some((a0, th0)) = warm { let _ = con.connect(a0); let _ = th0.join(); }
+        }
         let mut client = con.connect(a).map_err(|e| format!("connect:{:?}", e))?;
         for i in 0..nreads { client.read(|_| {}).map_err(|e| format!("read{}:{:?}", i, e))?; }
         for (i, op) in inputs.iter().enumerate() { client.write(parse_event(op).ok_or("bad event")?).map_err(|e| format!("write{}:{:?}", i, e))?; }
@@ -207,9 +225,9 @@ pub fn run_conn(c: &Cfg, s: &SrvCfg) -> Run {
     let first = log.frames.iter().find(|f| f.len() >= 12 && f[7] >> 2 == 14).map(|f| ((f[10] as u32) << 8) | f[11] as u32).unwrap_or(0);
     let srvmsgs: Vec<String> = log.srv_msgs.iter().map(|m| hex(m)).collect();
     let capsh: Vec<String> = s.caps.iter().map(|x| hex(x)).collect();
-    let line = format!("conn w={} h={} lay={} name={} dom8={} usr8={} pwd8={} hash={} ra={} blank={} auto={} nla={} ssel={} id={} uid={} ver={} licnew={} share={} source={} caps={} cflags={:08x} react={} inputs={} sel={} first={} srvmsgs={} ccr={} au={} cj1={} cj2={} lic={} key={} dom16={} usr16={} neg={} chal={} cc={} ek={} pw16={} ud16={} cp16={} cp8={} spk={} r2obs={}",
+    let line = format!("conn w={} h={} lay={} name={} dom8={} usr8={} pwd8={} hash={} ra={} blank={} auto={} nla={} ssel={} id={} uid={} ver={} licnew={} share={} source={} caps={} cflags={:08x} react={} reuse={} jrefuse={} inputs={} sel={} first={} srvmsgs={} ccr={} au={} cj1={} cj2={} lic={} key={} dom16={} usr16={} neg={} chal={} cc={} ek={} pw16={} ud16={} cp16={} cp8={} spk={} r2obs={}",
         c.w, c.h, c.lay, hex(c.name.as_bytes()), hex(c.dom.as_bytes()), hex(c.user.as_bytes()), hex(c.pw.as_bytes()), c.hash as u8, c.ra as u8, c.blank as u8, c.auto as u8, c.nla as u8,
-        s.sel, s.id, s.uid, s.version, s.license_new as u8, s.share, hex(&s.source), capsh.join(","), s.chal_flags, s.reactivate.map(|x| x.to_string()).unwrap_or("-".into()), s.inputs.join(","),
+        s.sel, s.id, s.uid, s.version, s.license_new as u8, s.share, hex(&s.source), capsh.join(","), s.chal_flags, s.reactivate.map(|x| x.to_string()).unwrap_or("-".into()), s.reuse, s.jrefuse, s.inputs.join(","),
         log.sel, first, srvmsgs.join(","), hex(&log.ccr), hex(&log.au), hex(log.cjc.get(0).unwrap_or(&vec![])), hex(log.cjc.get(1).unwrap_or(&vec![])), hex(&log.lic), hex(&key), hex(&utf16(&c.dom)), hex(&utf16(&c.user)), hex(&nego), hex(&log.chal), hex(&cc), hex(&log.k.clone().unwrap_or(vec![0; 16])),
         hex(&utf16(&c.pw)), hex(&utf16(&(c.user.to_uppercase() + &c.dom))), hex(&utf16(&client_pw)), hex(client_pw.as_bytes()), hex(&spk), r2obs);
     Run { status, log, line, out }
@@ -278,15 +296,19 @@ pub fn secrets_violation(c: &Cfg, r: &Run) -> Option<String> {
 /// byte arrive afterwards, did the connect succeed.
 pub fn tlsgate(em: &mut Emitter, check: bool, nla: bool, ra: bool, ssel: u32) {
     let c = Cfg { w: 800, h: 600, lay: 0x409, name: "rdp-rs".into(), dom: "d".into(), user: "u".into(), pw: "secret-pw".into(), hash: false, ra, blank: false, auto: false, nla, check };
-    let s = SrvCfg { sel: ssel, id: 1, uid: 1004, version: 0x80004, license_new: false, share: 0x103ea, caps: default_caps(), source: vec![], chal_flags: 0x62898235, inputs: vec![], script: vec![], reactivate: None };
+    let s = SrvCfg { sel: ssel, id: 1, uid: 1004, version: 0x80004, license_new: false, share: 0x103ea, caps: default_caps(), source: vec![], chal_flags: 0x62898235, inputs: vec![], script: vec![], reactivate: None, reuse: 0, jrefuse: 0 };
     watch_begin(&format!("tlsgate check={} nla={} ra={} ssel={} sel=0", check as u8, nla as u8, ra as u8, ssel));
     let r = run_conn(&c, &s);
     let tls_up = r.log.note != "tls accept failed" && (!r.log.m1.is_empty() || !r.log.frames.is_empty());
     let cred = !r.log.m1.is_empty() || !r.log.m2.is_empty() || r.log.frames.len() > 5;
-    let out = format!("tls={} cred={} connect={}", if tls_up { "up" } else { "refused" }, cred as u8, if r.status == "ok" { "ok" } else { "E" });
+    let out = format!("tls={} cred={} connect={} req={}", if tls_up { "up" } else { "refused" }, cred as u8, if r.status == "ok" { "ok" } else { "E" }, hex(&r.log.cr));
     let line = format!("tlsgate check={} nla={} ra={} ssel={} sel={}", check as u8, nla as u8, ra as u8, ssel, r.log.sel);
     let mut obs = Obs::new(out).nt(true).tag("tlsgate");
     if check && (tls_up || cred) { obs = obs.viol("certificate checking enabled, untrusted certificate, but the client went on"); }
+    // the reference server's view of the negotiation: what it selected must be in the request it received
+    let offered = if r.log.cr.len() >= 19 { u32::from_le_bytes([r.log.cr[15], r.log.cr[16], r.log.cr[17], r.log.cr[18]]) } else { 0 };
+    if (tls_up || cred) && r.log.sel & offered == 0 { obs = obs.viol("the client went on although the server selected a protocol that was not in the request"); }
+    if offered != if nla { 3 } else { 1 } { obs = obs.viol("the negotiation request does not offer what the configuration asks for"); }
     em.case(&line, move || obs);
 }
 
@@ -318,7 +340,7 @@ pub fn sequence_violation(s: &SrvCfg, r: &Run) -> Option<String> {
     };
     if payload(&fr[5]).is_none() { return Some("client info not sent by the assigned user on the I/O channel".into()); }
     for a in 0..n_act {
-        if a == 1 { share = s.reactivate.unwrap(); }
+        if a == 1 { share = s.reactivate.map(|x| if x == 0 { s.share } else { x }).unwrap(); }
         let exp: [(u16, u8, u16); 5] = [(0x13, 0, 0), (0x17, 0x1f, 0), (0x17, 0x14, 4), (0x17, 0x14, 1), (0x17, 0x27, 0)];
         for (pt, t2, action) in exp.iter() {
             let p = match payload(&fr[idx]) { Some(p) => p, None => return Some(format!("frame {} is not a send-data-request of the assigned user on channel 1003", idx)) };
@@ -349,16 +371,16 @@ pub fn run_case(toks: &[&str], em: &mut Emitter) {
     let caps: Vec<Vec<u8>> = get("caps").split(',').filter(|x| !x.is_empty()).map(|x| unhex(x)).collect();
     if toks[0] == "tlsgate" { tlsgate(em, b("check"), b("nla"), b("ra"), get("ssel").parse().unwrap_or(0)); return; }
     let s = SrvCfg { sel: get("ssel").parse().unwrap_or(0), id: get("id").parse().unwrap_or(1), uid: get("uid").parse().unwrap_or(1004), version: get("ver").parse().unwrap_or(0x80004), license_new: b("licnew"), share: get("share").parse().unwrap_or(0x103ea),
-        caps, source: unhex(&get("source")), chal_flags: u32::from_str_radix(&get("cflags"), 16).unwrap_or(0), inputs: get("inputs").split(',').filter(|x| !x.is_empty()).map(|x| x.to_string()).collect(), script: vec![], reactivate: get("react").parse().ok() };
+        caps, source: unhex(&get("source")), chal_flags: u32::from_str_radix(&get("cflags"), 16).unwrap_or(0), inputs: get("inputs").split(',').filter(|x| !x.is_empty()).map(|x| x.to_string()).collect(), script: vec![], reactivate: get("react").parse().ok(), reuse: get("reuse").parse().unwrap_or(0), jrefuse: get("jrefuse").parse().unwrap_or(0) };
     let _ = emit(em, &c, &s);
 }
 
 /// the replayable part of a `conn` line (configuration and server choices, nothing observed)
 pub fn recipe_line(c: &Cfg, s: &SrvCfg) -> String {
     let capsh: Vec<String> = s.caps.iter().map(|x| hex(x)).collect();
-    format!("conn w={} h={} lay={} name={} dom8={} usr8={} pwd8={} hash={} ra={} blank={} auto={} nla={} check={} ssel={} id={} uid={} ver={} licnew={} share={} source={} caps={} cflags={:08x} react={} inputs={}",
+    format!("conn w={} h={} lay={} name={} dom8={} usr8={} pwd8={} hash={} ra={} blank={} auto={} nla={} check={} ssel={} id={} uid={} ver={} licnew={} share={} source={} caps={} cflags={:08x} react={} reuse={} jrefuse={} inputs={}",
         c.w, c.h, c.lay, hex(c.name.as_bytes()), hex(c.dom.as_bytes()), hex(c.user.as_bytes()), hex(c.pw.as_bytes()), c.hash as u8, c.ra as u8, c.blank as u8, c.auto as u8, c.nla as u8, c.check as u8,
-        s.sel, s.id, s.uid, s.version, s.license_new as u8, s.share, hex(&s.source), capsh.join(","), s.chal_flags, s.reactivate.map(|x| x.to_string()).unwrap_or("-".into()), s.inputs.join(","))
+        s.sel, s.id, s.uid, s.version, s.license_new as u8, s.share, hex(&s.source), capsh.join(","), s.chal_flags, s.reactivate.map(|x| x.to_string()).unwrap_or("-".into()), s.reuse, s.jrefuse, s.inputs.join(","))
 }
 
 pub fn emit(em: &mut Emitter, c: &Cfg, s: &SrvCfg) -> Run {
@@ -410,7 +432,7 @@ pub fn generate(prop: &str, thorough: bool, seed: u64, part: (usize, usize), em:
                 nla: mode & 1 != 0, ra: mode & 2 != 0, blank: mode & 4 != 0, auto: mode & 8 != 0, hash: mode & 16 != 0, check: false };
             let mut flags: u32 = 0x40000000 | 0x20000000 | 0x00800000 | 0x00080000 | 0x00008000 | 0x00000200 | 0x00000020 | 0x00000010 | 0x00000004;
             if r.chance(1, 2) { flags |= 0x02000000; } if r.chance(3, 4) { flags |= 1; }
-            let s = SrvCfg { sel: 0, id: 1 + (mode as usize % 2), uid: 1004, version: 0x80004, license_new: false, share: 0x103ea, caps: default_caps(), source: b"RDP\0".to_vec(), chal_flags: flags, inputs: vec!["P10:20:1:1".into(), "K30:1".into()], script: vec![], reactivate: None };
+            let s = SrvCfg { sel: 0, id: 1 + (mode as usize % 2), uid: 1004, version: 0x80004, license_new: false, share: 0x103ea, caps: default_caps(), source: b"RDP\0".to_vec(), chal_flags: flags, inputs: vec!["P10:20:1:1".into(), "K30:1".into()], script: vec![], reactivate: None, reuse: if round % 2 == 1 { 1 + (mode % 2) as u8 } else { 0 }, jrefuse: 0 };
             let run = emit(em, &c, &s);
             if prop == "C04" { emit_strict(em, &run, &mut seen); }
         }
@@ -430,7 +452,7 @@ pub fn generate(prop: &str, thorough: bool, seed: u64, part: (usize, usize), em:
         let inputs: Vec<String> = (0..ninp).map(|_| if r.chance(1, 2) { format!("P{}:{}:{}:{}", r.below(65536), r.below(65536), r.below(4), r.below(2)) } else { format!("K{}:{}", r.below(256), r.below(2)) }).collect();
         let nsrc = r.below(6) as usize;
         let s = SrvCfg { sel: if c.nla && r.chance(1, 3) { 1 } else { 0 }, id: 1 + i % 2, uid, version: *r.pick(&[0x80004u32, 0x80001, 0x80005, 0x80010]), license_new: r.chance(1, 2), share: r.next() as u32,
-            caps, source: r.bytes(nsrc), chal_flags: 0x62898235 | if r.chance(1, 2) { 0x02000000 } else { 0 }, inputs, script: vec![], reactivate: if r.chance(1, 2) { Some(r.next() as u32) } else { None } };
+            caps, source: r.bytes(nsrc), chal_flags: 0x62898235 | if r.chance(1, 2) { 0x02000000 } else { 0 }, inputs, script: vec![], reactivate: match r.below(5) { 0 | 1 => Some(r.next() as u32), 2 => Some(0), _ => None }, reuse: if i % 7 == 3 { 1 } else if i % 7 == 5 { 2 } else { 0 }, jrefuse: if i % 11 == 4 { 1 + (i / 11 % 3) as u8 } else { 0 } };
         let run = emit(em, &c, &s);
         if prop == "C04" { emit_strict(em, &run, &mut seen); }
     }
